@@ -191,7 +191,7 @@ fn event_drop_releases_every_event_type() {
 }
 
 static mut PARSER_DELETES: u8 = 0;
-unsafe fn parser_delete_probe(_parser: *mut yaml_parser_t) { unsafe { PARSER_DELETES += 1; } }
+pub(crate) unsafe fn parser_delete_probe(_parser: *mut yaml_parser_t) { unsafe { PARSER_DELETES += 1; } }
 static mut READER_DROPS: u8 = 0;
 struct DropProbeReader;
 impl Read for DropProbeReader { fn read(&mut self, _buf: &mut [u8]) -> io::Result<usize> { Ok(0) } }
